@@ -247,6 +247,9 @@ func TestC08Seq(t *testing.T) {
 func TestC09Seq(t *testing.T) {
 	pr := &Profile{
 		MultiHandle: true, Purge: 2, Reopen: 1, Sync: 3, FeedsMax: 1, Backfill: 12,
+		// checkpointed dump feeds, resumed or started from an explicit CAS: what an earlier run of the
+		// same feed ID persisted must not take documents away from a backfill that names its start
+		Extra: []ExtraAction{{Name: "CpDump", Weight: 2, Gen: genCpDump}},
 	}
 	seqProperty(t, "C09", "TestC09Seq", pr, 1500,
 		"rapid histories over all entry points followed / interleaved by dump feeds from generated start CAS values (0, a document's CAS, one above, one below, max); the events between the markers are compared with the model (one per key with CAS >= start, CAS order, every field) and with the datatype learnt from the live event of the same version; non-trivial = a backfill whose start CAS cuts strictly inside the history and whose collection holds at least one tombstone with xattrs or one document with an expiry; distinct by <op, prior class, CAS class, outcome> sequence",
